@@ -36,36 +36,36 @@ COMMON_ASSUME = [
 PROPS = {
     "C01": dict(
         drivers=[step_cases("C01")],
-        mc=[],
+        mc=[dict(module="MC_Step.tla", cfg="MC_Step_C01.cfg", workers=14)],
         must_cover=impl_rows({"MOV"}),
         rule="every MOV form of the exported table x every admissible register nibble (systematic) x all 256 CCR values (cyclic) x operand addresses in on-chip RAM / DRAM / vector area (edges and interior) x boundary+seeded-random data; one real single-step per event, validated against StepF; distinct = distinct events",
         assumptions=COMMON_ASSUME,
     ),
-    "C02": dict(drivers=[step_cases("C02")], mc=[], must_cover=impl_rows({"ADD", "SUB", "CMP", "ADDX", "NEG", "INC", "DEC", "ADDS", "SUBS", "MULXU", "DIVXU"}),
+    "C02": dict(drivers=[step_cases("C02")], mc=[dict(module="MC_Alu.tla", cfg="MC_Alu.cfg", cfg_q="MC_Alu_q.cfg", workers=14)], must_cover=impl_rows({"ADD", "SUB", "CMP", "ADDX", "NEG", "INC", "DEC", "ADDS", "SUBS", "MULXU", "DIVXU"}),
                 rule="every arithmetic form x every register nibble pair (systematic) x all 256 CCR (cyclic) x boundary-cross-product + related (b=a, ~a, -a) + seeded random operand values", assumptions=COMMON_ASSUME),
-    "C03": dict(drivers=[step_cases("C03")], mc=[], must_cover=impl_rows({"AND", "OR", "XOR", "NOT", "EXTU", "SHAL", "SHAR", "SHLL", "SHLR", "ROTL", "ROTR", "ROTXL", "ROTXR"}),
+    "C03": dict(drivers=[step_cases("C03")], mc=[dict(module="MC_Alu.tla", cfg="MC_Alu.cfg", cfg_q="MC_Alu_q.cfg", workers=14)], must_cover=impl_rows({"AND", "OR", "XOR", "NOT", "EXTU", "SHAL", "SHAR", "SHLL", "SHLR", "ROTL", "ROTR", "ROTXL", "ROTXR"}),
                 rule="every logic/shift/rotate form x register nibbles x all 256 CCR x boundary + random values", assumptions=COMMON_ASSUME),
-    "C04": dict(drivers=[step_cases("C04")], mc=[], must_cover=impl_rows({"BSET", "BCLR", "BNOT", "BTST", "BST", "BIST", "BLD", "BILD", "BAND", "BIAND", "BOR", "BIOR", "BXOR", "BIXOR"}),
+    "C04": dict(drivers=[step_cases("C04")], mc=[dict(module="MC_Step.tla", cfg="MC_Step_C04.cfg", workers=14)], must_cover=impl_rows({"BSET", "BCLR", "BNOT", "BTST", "BST", "BIST", "BLD", "BILD", "BAND", "BIAND", "BOR", "BIOR", "BXOR", "BIXOR"}),
                 rule="every bit-manipulation form x operand/bit/address register nibbles x values x bit numbers x C", assumptions=COMMON_ASSUME),
     "C05": dict(gen=[dict(name="words", module="MC_CallRet.tla", cfg="MC_CallRet_t.cfg", cfg_q="MC_CallRet.cfg")],
                 drivers=[step_cases("C05"),
                          dict(name="callret", module="TraceRun.tla", args=["callret", "--in", "{words}", "--out", "{out}", "--threads", "{threads}", "--seed", "{seed}"])],
-                mc=[], must_cover=impl_rows({"BCC", "JMP", "JSR", "BSR", "RTS"}),
+                mc=[dict(module="MC_Step.tla", cfg="MC_Step_C05.cfg", workers=14)], must_cover=impl_rows({"BCC", "JMP", "JSR", "BSR", "RTS"}),
                 rule="16 conditions x 256 CCR x both Bcc forms x displacements; JMP/JSR/BSR/RTS x target registers x SP placements incl. non-zero upper byte", assumptions=COMMON_ASSUME),
     "C06": dict(gen=[dict(name="sched", module="MC_Intc.tla", cfg="Gen_Irq_t.cfg", cfg_q="Gen_Irq_q.cfg")],
                 drivers=[step_cases("C06"),
                          dict(name="acc", module="TraceRun.tla", args=["acc-cases", "--tier", "{tier}", "--out", "{out}", "--threads", "{threads}", "--seed", "{seed}"]),
                          dict(name="irq", module="TraceRun.tla", args=["irq-replay", "--tier", "{tier}", "--in", "{sched}", "--out", "{out}", "--threads", "{threads}", "--seed", "{seed}"])],
-                mc=[], must_cover=impl_rows({"TRAPA", "RTE"}),
+                mc=[dict(module="MC_Step.tla", cfg="MC_Step_C06.cfg", workers=14)], must_cover=impl_rows({"TRAPA", "RTE"}),
                 rule="TRAPA #1-3 / RTE x CCR x SP placements x vector contents with non-zero top byte", assumptions=COMMON_ASSUME),
-    "C08": dict(drivers=[step_cases("C08")], mc=[], must_cover=impl_rows(pred=lambda r: r["a"][0] in ("IND", "D16", "D24", "INC", "DEC", "A8", "A16", "A24") or r["b"][0] in ("IND", "D16", "D24", "INC", "DEC", "A8", "A16", "A24")),
+    "C08": dict(drivers=[step_cases("C08")], mc=[dict(module="MC_Step.tla", cfg="MC_Step_C08.cfg", workers=14)], must_cover=impl_rows(pred=lambda r: r["a"][0] in ("IND", "D16", "D24", "INC", "DEC", "A8", "A16", "A24") or r["b"][0] in ("IND", "D16", "D24", "INC", "DEC", "A8", "A16", "A24")),
                 rule="every form with a memory operand x base registers with upper byte 00/01/7F/80/FF/5A/A5 x wrapping displacements x region edges; tagged memory makes the accessed location observable", assumptions=COMMON_ASSUME),
-    "C20": dict(drivers=[step_cases("C20")], mc=[], must_cover=impl_rows(),
+    "C20": dict(drivers=[step_cases("C20")], mc=[dict(module="MC_Cost.tla", cfg="MC_Cost.cfg", workers=14)], must_cover=impl_rows(),
                 rule="every implemented form x code in on-chip RAM / DRAM x operand, stack, vector placement x 6 bus-controller settings with pairwise distinct per-cycle costs; only the charged state count is compared", assumptions=COMMON_ASSUME),
     "C07": dict(drivers=[dict(name="sweep", args=["decode-sweep", "--tier", "{tier}", "--forms", "{forms}", "--out", "{out}", "--threads", "{threads}", "--seed", "{seed}"])],
-                mc=[], exhaustive=True,
+                mc=[dict(module="MC_Decode.tla", cfg="MC_Decode.cfg", cfg_q="MC_Decode_q.cfg", workers=14, timeout=3000)], exhaustive=True,
                 rule="ALL 65,536 first instruction words (x2 register files / placements), every multi-word prefix (0100, 0140, 01F0, 01C0, 01D0, 78r0, 7Cr0-7Faa, 6A/6B abs24, 58c0, 7B5C/7BD4) x second words (table patterns, their single-bit neighbours, random; all 65,536 for the main prefixes in thorough) and third words for the 78r0 chains; outcome class, consumed length and full post state compared with the independent decode table", assumptions=COMMON_ASSUME),
-    "C14": dict(drivers=[dict(name="mes", args=["mes-cases", "--tier", "{tier}", "--out", "{out}", "--seed", "{seed}"])], mc=[],
+    "C14": dict(drivers=[dict(name="mes", args=["mes-cases", "--tier", "{tier}", "--out", "{out}", "--seed", "{seed}"])], mc=[dict(module="MC_Step.tla", cfg="MC_Step_C14.cfg", workers=14)],
                 rule="TRAPA #0: write with buffers in on-chip RAM and DRAM, lengths 0-4096 (boundary + random), valid UTF-8 contents incl. NUL, newline, backslash, 2/3/4-byte sequences; console bytes captured by redirecting fd 1 around the step, messages through the capture hook; set_handler for ALL vector numbers 0-255 (+ large values) x handler addresses; all other call numbers 0-255 + aliases + random", assumptions=COMMON_ASSUME),
     "C15": dict(profiles=["release", "relchk"],
                 drivers=[dict(name="mes_release", profile="release", args=["mes-cases", "--tier", "{tier}", "--out", "{out}", "--seed", "{seed}", "--adversarial", "1"]),
@@ -76,14 +76,14 @@ PROPS = {
                          dict(name="lines_relchk", profile="relchk", module="TraceRun.tla", args=["sock-replay", "--tier", "{tier}", "--out", "{out}", "--threads", "{threads}", "--seed", "{seed}", "--fuzz", "1"]),
                          dict(name="sweep_release", profile="release", args=["panic-sweep", "--tier", "{tier}", "--forms", "{forms}", "--out", "{out}", "--threads", "{threads}", "--seed", "{seed}"]),
                          dict(name="sweep_relchk", profile="relchk", args=["panic-sweep", "--tier", "{tier}", "--forms", "{forms}", "--out", "{out}", "--threads", "{threads}", "--seed", "{seed}"])],
-                mc=[],
+                mc=[dict(module="MC_Decode.tla", cfg="MC_Decode.cfg", cfg_q="MC_Decode_q.cfg", workers=14, timeout=3000)],
                 rule="all first words + multi-word prefixes x adversarial register files (0,1,2,3,FFFFFFFF,region edges +-4, odd values, 00FFFFFF, 01000000) x CCR 00/FF x 4 bus-controller settings x PC in every mapped region incl. its last 2/4/6 bytes and at unmapped addresses, in BOTH build profiles (release; release+overflow-checks+debug-assertions); the spec's outcome alphabet is {ok, err}: a recorded panic matches no action", assumptions=COMMON_ASSUME),
-    "C19": dict(drivers=[dict(name="cost", args=["cost-table", "--out", "{out}", "--seed", "{seed}"])], mc=[], exhaustive=True,
+    "C19": dict(drivers=[dict(name="cost", args=["cost-table", "--out", "{out}", "--seed", "{seed}"])], mc=[dict(module="MC_Cost.tla", cfg="MC_Cost.cfg", workers=14)], exhaustive=True,
                 rule="exhaustive per-area setting space (8-/16-bit x 2-/3-state x 4 wait values x 8 DRAM selects; areas 3-5 with DRAM select 0/1 only) x 6 cycle kinds x counts 1-5 x both ends + interior of all 8 areas + on-chip RAM ends, the OTHER areas' bits filled all-0 / all-1 / two random ways; on-chip I/O register addresses excluded; each evaluation of the real calc_state / calc_state_with_addr is one event validated against H8Cost.CycleCost", assumptions=COMMON_ASSUME),
     "C09": dict(drivers=[dict(name="scan", module="TraceBus.tla", args=["bus-scan", "--out", "{out}", "--seed", "{seed}"]),
                          dict(name="hist", module="TraceBus.tla", args=["bus-history", "--tier", "{tier}", "--out", "{out}", "--threads", "{threads}", "--seed", "{seed}"]),
                          step_cases("C09", name="wl")],
-                mc=[], exhaustive=True,
+                mc=[dict(module="MC_Bus.tla", cfg="MC_Bus_t.cfg", cfg_q="MC_Bus.cfg", workers=14)], exhaustive=True,
                 rule="(a) Bus::read on ALL 2^24 addresses + 6,000 samples at/above 2^24, observed as maximal intervals of equal outcome, must EQUAL the spec's region list; write-tag/read-back of every address with two different tag functions (no aliasing, failed writes change nothing); (b) seeded interleaved histories of byte writes/reads at region edges +-4, holes, seams, above 2^24, each with whole-bus diff, threaded through the spec's memory; (c) word/long accesses through MOV instructions at region edges (big-endian composition)", assumptions=COMMON_ASSUME),
     "C16": dict(gen=[dict(name="port1", module="MC_Port.tla", cfg="Gen_Port_t.cfg", cfg_q="Gen_Port_q.cfg"),
                      dict(name="port2", module="MC_Port.tla", cfg="Gen_Port2_t.cfg", cfg_q="Gen_Port2_q.cfg")],
@@ -92,19 +92,19 @@ PROPS = {
                          dict(name="p2", module="TraceBus.tla", args=["port-replay", "--tier", "{tier}", "--in", "{port2}", "--out", "{out}", "--threads", "{threads}", "--seed", "{seed}"])],
                 count_traces="histories",
                 rule="TLC enumerates EVERY history of {write DDR, write DR, external input} x 4 values to depth 5 on one port (248,832; thorough depth 6 x 3 values) and every two-port interleaving to depth 3 (4 in thorough); each is replayed into the real Bus (slots mapped over all 11 ports and port pairs), plus seeded random length-20..60 histories with arbitrary bytes and invalid port numbers; per event: DR read-back, announcement rule, time stamps, all other ports and all other memory unchanged", assumptions=COMMON_ASSUME),
-    "C17": dict(mc=[], drivers=[dict(name="timer", module="TraceBus.tla", args=["timer-replay", "--tier", "{tier}", "--out", "{out}", "--threads", "{threads}", "--seed", "{seed}"])],
+    "C17": dict(mc=[dict(module="MC_Timer.tla", cfg="MC_Timer.cfg", cfg_q="MC_Timer_q.cfg", workers=14, timeout=1800)], drivers=[dict(name="timer", module="TraceBus.tla", args=["timer-replay", "--tier", "{tier}", "--out", "{out}", "--threads", "{threads}", "--seed", "{seed}"])],
                 count_traces="histories",
                 rule="seeded histories: all 256 TCR values, TCORA/TCORB/TCNT start values (boundary + random; the property's exclusions respected, violated now and then = 'open' class), charges from {1,2,3,7,8,9,15,16,17,63,64,65,100,128,200,255} + random 1..255, interleaved CPU writes to TCR (clock change / same clock), TCNT, TCORx, TCSR; the set of prescaler phases consistent with the observations is tracked by the spec, an observation no phase explains is a violation", assumptions=COMMON_ASSUME),
-    "C11": dict(mc=[], drivers=[dict(name="elf", module="TraceElf.tla", args=["elf-load", "--tier", "{tier}", "--out", "{out}", "--threads", "{threads}", "--seed", "{seed}"])],
+    "C11": dict(mc=[dict(module="MC_Loader.tla", cfg="MC_Loader.cfg", workers=14)], drivers=[dict(name="elf", module="TraceElf.tla", args=["elf-load", "--tier", "{tier}", "--out", "{out}", "--threads", "{threads}", "--seed", "{seed}"])],
                 rule="generated ELF32-BE files: 1-4 ascending non-overlapping PT_LOADs (gaps 0.., adjacent, filesz 0..512 / 64 KiB in thorough, bss tails), 0-2 non-load headers at any position, shuffled file offsets and section order, .got of 0-16 (64) entries anywhere in a segment incl. its bss tail, unaligned / partial sizes, entry values incl. 0 and sums carrying into the top byte; the real elf::load is run on each file; the COMPLETE non-zero DRAM contents and any change outside DRAM are compared with the image recomputed by TLC from the abstract description", assumptions=COMMON_ASSUME + ["the harness's ELF writer encodes the abstract description correctly (the loader's own parser reads it back; cross-checked with readelf in the self-test)"]),
-    "C12": dict(mc=[], drivers=[dict(name="elf", module="TraceElf.tla", args=["elf-load", "--tier", "{tier}", "--out", "{out}", "--threads", "{threads}", "--seed", "{seed}"])],
+    "C12": dict(mc=[dict(module="MC_Loader.tla", cfg="MC_Loader.cfg", workers=14)], drivers=[dict(name="elf", module="TraceElf.tla", args=["elf-load", "--tier", "{tier}", "--out", "{out}", "--threads", "{threads}", "--seed", "{seed}"])],
                 rule="as C11, with .stack sizes {0,1,3,4,5,0x400,0xFFFF,0x10000,random}, symbol tables of 1-24 (200) symbols with ___exit first / last / anywhere and near-miss names, argument strings of 0-10 (32) words with runs of blanks/tabs, leading/trailing white space, words up to 60 (200) bytes; ER0/1/2/5/7, exit address, argv table and strings, layout predicates", assumptions=COMMON_ASSUME),
     "C10": dict(gen=[dict(name="sched", module="MC_Intc.tla", cfg="Gen_Irq_t.cfg", cfg_q="Gen_Irq_q.cfg")],
                 mc=[dict(module="MC_Intc.tla", cfg="MC_Intc.cfg")],
                 drivers=[dict(name="irq", module="TraceRun.tla", args=["irq-replay", "--tier", "{tier}", "--in", "{sched}", "--out", "{out}", "--threads", "{threads}", "--seed", "{seed}"])],
                 count_traces="histories",
                 rule="TLC enumerates EVERY placement of <= 3 (4) requests over 3 vector slots among 9 (12) instruction boundaries; each schedule is replayed on a real guest program (counted arithmetic loop; handlers push, log their vector number, pop, RTE; some handlers TRAPA into nested trap handlers; slots mapped over all vectors 1-63; code / stack / data in on-chip RAM and DRAM; runs that start masked), stepping loop = try_interrupt + fetch/exec; every boundary (acc) and every instruction (step) is validated against the spec, pending multiset tracked, final 'end' (nothing pending, entered = requested per vector) and 'cmp' against the interrupt-free run of the same program; plus seeded random longer schedules", assumptions=COMMON_ASSUME),
-    "C13": dict(mc=[], drivers=[dict(name="run", module="TraceRun.tla", args=["run-program", "--tier", "{tier}", "--out", "{out}", "--seed", "{seed}"])],
+    "C13": dict(mc=[dict(module="MC_Run.tla", cfg="MC_Run.cfg", workers=8), dict(module="MC_Run.tla", cfg="MC_Run_live.cfg", workers=1)], drivers=[dict(name="run", module="TraceRun.tla", args=["run-program", "--tier", "{tier}", "--out", "{out}", "--seed", "{seed}"])],
                 count_traces="runs", tv_timeout=2400,
                 rule="guest programs laid out as ELF files, loaded by the real elf::load and executed by the REAL Cpu::run in-process: port set-up + loop + calls + write system calls with awkward bytes; five programs ending in an instruction that must be rejected (ret err); counted loops; timer + set_handler + interrupt + port scenario; a long loop crossing the first sync threshold (three thresholds in thorough). One event per run-loop iteration (registers, whole-memory diff, charged states, state_sum, pending queue, messages, console); TLC executes the same program with the spec (long runs: accounting / sync / timer / continuity projection). Each program is run 5 times (2 of them under 24 busy host threads) and the run summaries (final state, state count, iteration count, hashes of the per-iteration (pc, charge) sequence and of the message sequence) must be equal", assumptions=COMMON_ASSUME),
     "C18": dict(gen=[dict(name="sched", module="MC_Sock.tla", cfg="Gen_Sock_t.cfg", cfg_q="Gen_Sock_q.cfg")],
